@@ -18,8 +18,8 @@ CONSTANTS
   Promised = {2}
   Pings = {1}
   BugContES = FALSE
-  BugPadCredit = TRUE
+  BugPadCredit = FALSE
   EncodeAtEnqueue = FALSE
-  BugZeroCostHeld = FALSE
-INVARIANTS WithinGrant WithinMaxFrame CreditReturned NoEligibleQueued LedgerAgrees PrefixFidelity
+  BugZeroCostHeld = TRUE
+INVARIANTS NoEligibleQueued
 CHECK_DEADLOCK FALSE
